@@ -135,14 +135,20 @@ func encodeLength(out *bytes.Buffer, length int) (err error) {
 func readObject(ber []byte, offset int) (asn1Object, int, error) {
 	//fmt.Printf("\n====> Starting readObject at offset: %d\n\n", offset)
 	tagStart := offset
+	if offset < 0 || offset >= len(ber) {
+		return nil, 0, errors.New("ber2der: input is truncated")
+	}
 	b := ber[offset]
 	offset++
 	tag := b & 0x1F // last 5 bits
 	if tag == 0x1F {
 		tag = 0
-		for ber[offset] >= 0x80 {
+		for offset < len(ber) && ber[offset] >= 0x80 {
 			tag = tag*128 + ber[offset] - 0x80
 			offset++
+		}
+		if offset >= len(ber) {
+			return nil, 0, errors.New("ber2der: input is truncated")
 		}
 		tag = tag*128 + ber[offset] - 0x80
 		offset++
@@ -159,6 +165,9 @@ func readObject(ber []byte, offset int) (asn1Object, int, error) {
 	*/
 	// read length
 	var length int
+	if offset >= len(ber) {
+		return nil, 0, errors.New("ber2der: input is truncated")
+	}
 	l := ber[offset]
 	offset++
 	indefinite := false
@@ -166,6 +175,9 @@ func readObject(ber []byte, offset int) (asn1Object, int, error) {
 		numberOfBytes := (int)(l & 0x7F)
 		if numberOfBytes > 4 { // int is only guaranteed to be 32bit
 			return nil, 0, errors.New("ber2der: BER tag length too long")
+		}
+		if offset+numberOfBytes > len(ber) {
+			return nil, 0, errors.New("ber2der: input is truncated")
 		}
 		if numberOfBytes == 4 && (int)(ber[offset]) > 0x7F {
 			return nil, 0, errors.New("ber2der: BER tag length is negative")
